@@ -6,10 +6,13 @@
 // (Requests().Cur, Retries().Cur, UpstreamRequestActive, DownstreamRequestActive).
 // Kind `tcp` (tcp.go): session scripts on the real stream proxy filter behind the real connection handler on loopback
 // sockets — the cluster's Connections() resource, the UpstreamConnectionActive gauges and the handler's connection count.
+// Kinds `mux` / `h2p` (harness/c09, emitted as C10 cases): the REAL multiplex pool with one-way requests and the REAL
+// HTTP/2 pool — Requests().Cur(), the request_active and connection_active gauges after every operation.
 package c10
 
 import (
 	"verif/harness/c03"
+	"verif/harness/c09"
 	"verif/harness/hx"
 )
 
@@ -21,6 +24,18 @@ func Run(c *hx.Ctx) {
 		RunTcp(c, c.N(100, 500))
 		return
 	}
+	if len(c.Args) > 0 && c.Args[0] == "poolsonly" { // development aid: only the real pools' ledger
+		c09.RunMux(c, "C10", c.N(80, 500))
+		c09.RunH2(c, "C10", c.N(100, 600))
+		return
+	}
+	// the real pools' side of the ledger (harness/c09): the multiplex pool with one-way requests (requests breaker, host /
+	// cluster request_active), the HTTP/2 pool against a scripted HTTP/2 upstream (connection_active through GOAWAY,
+	// replacement and closes in scripted orders)
+	// (run last: the histories above draw from c.Rng exactly as they did before these kinds existed, and the timing-sensitive
+	// tcp sessions do not share the process with what the pool worlds leave behind)
 	c03.RunMany(c, "C10", c.N(700, 2500), 8, true)
 	RunTcp(c, c.N(100, 500))
+	c09.RunMux(c, "C10", c.N(80, 500))
+	c09.RunH2(c, "C10", c.N(100, 600))
 }
